@@ -219,6 +219,8 @@ func c19prop(ev *evid.Rec) func(rt *rapid.T) {
 		c19maybe = nil
 		defer func() { c19cur, c19when, c19layout, c19maybe = c19default, nil, "Jan02 15:04", nil }()
 		failedPost := rapid.IntRange(0, 3).Draw(rt, "failedPost") == 0
+		// the operator's reload request (SIGHUP) may arrive at any moment, also while posts are being made
+		reloadsDuringRounds := rapid.IntRange(0, 2).Draw(rt, "reloadsDuringRounds") == 0
 		// the time of day at which the case plays (the bubble's clock starts at midnight)
 		startAfter := time.Duration(rapid.IntRange(0, 24*60-1).Draw(rt, "startMinuteOfDay")) * time.Minute
 		opt := hlsim.Options{Agreement: string(agreement), Board: string(initial), Accounts: []hlsim.AccountSpec{acct("admin", "Admin", "adminpw", func() hlref.Access { a := hlref.AllAccess().Defined(); a.Clear(hlref.PrivNoAgreement); return a }())}}
@@ -305,6 +307,19 @@ func c19prop(ev *evid.Rec) func(rt *rapid.T) {
 				}
 				if len(rd.readers) >= 2 && boardSize > 512 || (len(rd.readers) >= 1 && len(rd.posters) >= 1) {
 					overlap = true
+				}
+				if reloadsDuringRounds {
+					var rg sync.WaitGroup
+					for g := 0; g < 4; g++ {
+						rg.Add(1)
+						go func() {
+							defer rg.Done()
+							for k := 0; k < 6; k++ {
+								_ = w.Board.Reload()
+							}
+						}()
+					}
+					rg.Wait()
 				}
 				settle(0)
 				before := len(acked)
@@ -422,7 +437,7 @@ func c19prop(ev *evid.Rec) func(rt *rapid.T) {
 				overlap = true
 			}
 		})
-		ev.Case(evid.Hash(boardSize, agreeSize, fmt.Sprint(rounds), nlogin, fmt.Sprint(len(texts)), variant, editAgreement, staleTmp, failedReload, failedPost), overlap, fmt.Sprintf("board:%d", boardSize), fmt.Sprintf("agreement:%d", agreeSize), "post-format:"+variant)
+		ev.Case(evid.Hash(boardSize, agreeSize, fmt.Sprint(rounds), nlogin, fmt.Sprint(len(texts)), variant, editAgreement, staleTmp, failedReload, failedPost, reloadsDuringRounds), overlap, fmt.Sprintf("board:%d", boardSize), fmt.Sprintf("agreement:%d", agreeSize), "post-format:"+variant)
 		if overlap && ev.WantSample() {
 			ev.Sample(map[string]any{"engine": "bubble", "board_bytes": boardSize, "agreement_bytes": agreeSize, "rounds(readers/posters by client)": fmt.Sprint(rounds), "simultaneous_logins": nlogin})
 		}
